@@ -45,3 +45,32 @@ def near_gamma():
 
 
 GSHIFTS = [np.array(g, float) for g in itertools.product((-1, 0, 1), repeat=3)]
+
+
+def layouts(qs):
+    """The same q-points in every memory layout numpy users produce: name -> array equal to qs element by element."""
+    qs = np.array(qs, dtype="double", order="C")
+    n = len(qs)
+    wide = np.zeros((n, 6))
+    wide[:, 1:4] = qs
+    wide[:, 0] = 7.0
+    wide[:, 4:] = -3.0
+    twice = np.repeat(qs, 2, axis=0)
+    twice[1::2] += 0.123
+    out = {
+        "fortran-order": np.asfortranarray(qs),
+        "transpose-of-components": np.array([qs[:, 0], qs[:, 1], qs[:, 2]]).T,
+        "column-slice-of-table": wide[:, 1:4],
+        "every-other-row": twice[::2],
+        "negative-stride": qs[::-1].copy()[::-1],
+        "float32-exact": None,
+        "list-of-lists": qs.tolist(),
+    }
+    q32 = qs.astype("float32")
+    if np.array_equal(q32.astype("double"), qs):
+        out["float32-exact"] = q32
+    else:
+        del out["float32-exact"]
+    for k, v in out.items():
+        assert np.array_equal(np.asarray(v, dtype="double"), qs), k
+    return out
